@@ -182,7 +182,7 @@ class WorkloadGenerator(Workload):
                     for j in range(curr_num_segs):
                         # If first node, make it the most IO bound, else have it
                         # draw randomly from all other segment types
-                        if prev_seg is None:
+                        if prev_op is None:
                             seg = self.generate_segment_from_val(-2)
                             op.add_segment(seg)
                         else:
